@@ -221,39 +221,49 @@ def blocksToBytes (v : Ver) (blocks : List (List Instr)) (addArgs : List Arg) (f
 def ftypeBits : Option FnType → List Nat
   | some .generator => [bGENERATOR] | some .coroutine => [bCOROUTINE] | some .asyncGenerator => [bASYNC_GENERATOR] | none => []
 
+/-- argument counts and flags of the header, from `type` (`args_to_input`, the `varnames should start with args` assert) -/
+def headerCounts (tp : Option Function) (outVarnames : List PStr) : R (Nat × Nat × Nat × List Nat) :=
+  match tp with
+  | some f => do
+    let a := f.args
+    -- duplicate parameter names: what the CodeType constructor then checks is not modelled
+    if a.paramNames.length != a.posOnly.length + a.posOrKw.length + a.kwOnly.length
+        + (if a.varPos.isSome then 1 else 0) + (if a.varKw.isSome then 1 else 0) then throw .unmodelled
+    let flags := [bNEWLOCALS, bOPTIMIZED] ++ ftypeBits f.ftype
+    let flags := flags ++ (if (optName a.varPos).isEmpty then [] else [bVARARGS])
+    let flags := flags ++ (if (optName a.varKw).isEmpty then [] else [bVARKEYWORDS])
+    let vn := a.varnameOrder
+    if outVarnames.take vn.length != vn then throw .raised
+    pure (a.posOnly.length + a.posOrKw.length, a.posOnly.length, a.kwOnly.length, flags)
+  | none => pure (0, 0, 0, [])
+
+/-- the line mapping handed to `from_line_mapping`: the instruction lines, the optional extra line, relative to the first line -/
+def finalLineMap (out : BlocksOut) (addLine : Option AdditionalLine) (fln : Int) : LMap :=
+  let lm : LMap := match addLine with
+    | some al =>
+      let n := out.code.length
+      ⟨LT.setAssoc n al.line out.lm.lines, LT.setAssoc n al.offs out.lm.extra⟩
+    | none => out.lm
+  { lm with lines := lm.lines.map fun (o, l) => (o, l.map (· - fln)) }
+
+/-- everything of `from_code_data` after the operand tables and the nested code objects are known -/
+def finishCode (v : Ver) (F : FlagTable) (out : BlocksOut) (consts : List RConst) (fname : PStr) (fln : Int) (name : PStr) (ss : Nat)
+    (tp : Option Function) (fv : List PStr) (ann nested : Bool) (addLine : Option AdditionalLine) : R RawCode := do
+  let (argc, pos, kw, flags) ← headerCounts tp out.varnames
+  let flags := if fv.isEmpty && out.cellvars.isEmpty then flags ++ [bNOFREE] else flags
+  let flags := if ann then flags ++ [F.annotations] else flags
+  let flags := if nested then flags ++ [bNESTED] else flags
+  let table ← LT.fromLineMapping v.is310 (finalLineMap out addLine fln)
+  if !v.hasPosOnly && pos != 0 then throw .raised
+  pure (.mk argc pos kw out.varnames.length ss (fromFlags flags) fln out.code table fname name out.names out.varnames fv out.cellvars consts)
+
 def fromCodeDataGo (v : Ver) (F : FlagTable) (enc : CodeData → R RawCode) : CodeData → R RawCode
   | .mk blocks fname fln name ss tp fv ann nested addLine addArgs => do
-    let flags : List Nat := match tp with
-      | some f => [bNEWLOCALS, bOPTIMIZED] ++ ftypeBits f.ftype
-      | none => []
     let out ← blocksToBytes v blocks addArgs fv tp
     let consts ← out.consts.mapM (fun c => match c with
       | .inner i => pure (RConst.inner i)
       | .code d => RConst.code <$> enc d)
-    let lm : LMap := match addLine with
-      | some al =>
-        let n := out.code.length
-        ⟨LT.setAssoc n al.line out.lm.lines, LT.setAssoc n al.offs out.lm.extra⟩
-      | none => out.lm
-    let (argc, pos, kw, flags) ← match tp with
-      | some f => do
-        let a := f.args
-        -- duplicate or empty parameter names: what the CodeType constructor then checks is not modelled
-        if a.paramNames.length != a.posOnly.length + a.posOrKw.length + a.kwOnly.length
-            + (if a.varPos.isSome then 1 else 0) + (if a.varKw.isSome then 1 else 0) then throw .unmodelled
-        let flags := flags ++ (if (optName a.varPos).isEmpty then [] else [bVARARGS])
-        let flags := flags ++ (if (optName a.varKw).isEmpty then [] else [bVARKEYWORDS])
-        let vn := a.varnameOrder
-        if out.varnames.take vn.length != vn then throw .raised
-        pure (a.posOnly.length + a.posOrKw.length, a.posOnly.length, a.kwOnly.length, flags)
-      | none => pure (0, 0, 0, flags)
-    let flags := if fv.isEmpty && out.cellvars.isEmpty then flags ++ [bNOFREE] else flags
-    let flags := if ann then flags ++ [F.annotations] else flags
-    let flags := if nested then flags ++ [bNESTED] else flags
-    let lm : LMap := { lm with lines := lm.lines.map fun (o, l) => (o, l.map (· - fln)) }
-    let table ← LT.fromLineMapping v.is310 lm
-    if !v.hasPosOnly && pos != 0 then throw .raised
-    pure (.mk argc pos kw out.varnames.length ss (fromFlags flags) fln out.code table fname name out.names out.varnames fv out.cellvars consts)
+    finishCode v F out consts fname fln name ss tp fv ann nested addLine
 
 def fromCodeDataFuel (v : Ver) (F : FlagTable) : Nat → CodeData → R RawCode
   | 0, _ => throw .fuel
